@@ -14,8 +14,11 @@ def sh(cmd, **kw):
 dst = "%s/seeded/%s-%s" % (V, prop, n)
 os.makedirs(dst, exist_ok=True)
 for f in ("patch.diff", "demo.cpp"):
-    shutil.copyfile(os.path.join(src, f), os.path.join(dst, f))
+    if os.path.abspath(os.path.join(src, f)) != os.path.abspath(os.path.join(dst, f)):
+        shutil.copyfile(os.path.join(src, f), os.path.join(dst, f))
 notes = open(os.path.join(src, "notes.txt")).read() if os.path.exists(os.path.join(src, "notes.txt")) else ""
+if not notes and os.path.exists(os.path.join(dst, "meta.json")):
+    notes = json.load(open(os.path.join(dst, "meta.json"))).get("needs_to_manifest", "")
 meta = {"property": prop, "needs_to_manifest": notes[:1500], "ran": []}
 if not os.path.exists(W):
     print(sh("git -C /repo worktree add -f %s HEAD" % W).stdout)
